@@ -54,6 +54,9 @@ def body_lines(m, is_method=False):
         return [f"return ('r', {mid}, recurse({altl})) if __vf.rec_ok() else ('m', {mid})"]
     if kind == "nextalt":
         return [f"return ('n', {mid}, call_next({altl})) if __vf.rec_ok() else ('m', {mid})"]
+    if kind == "fnextalt":
+        # f.next with *other* arguments: the same meaning as call_next with them
+        return [f"return ('n', {mid}, __F.next({altl})) if __vf.rec_ok() else ('m', {mid})"]
     if kind == "recnest":
         # a rewritten call nested inside the argument list of another one, on one line (entry monitors only)
         if nalt >= 2:
